@@ -175,9 +175,9 @@ CHECKS["C18"] = dict(engine="tlc+cli", level="exploration", ref="4.9", technique
                      text="The binary built from /repo is run on every generated case with -w 1 and -w N (2..8), preload and streaming; the listed output events (guarded for completeness by the engines' own emitted counter from a --quiet run) must be the same multiset. 9 pipeline classes: stateless filter, derived chain, two streams, partitioned count / sliding-count windows, running aggregate, 2-step sequences (with cross-alias predicate), Kleene.",
                      note="Trusted: the binary's 'Output Events Summary' as the observation of its outputs. Bounded: 40 walks (thorough 600) x streams of 12 (16) events over 4 keys; all events carry the key; time windows excluded (immediate mode has no event time).")
 
-CHECKS["C35"] = dict(engine="tlc+vhraft", level="model_checking", ref="4.20", technique="TLA+ specs RaftSM.tla (apply_command transcribed; batching independence and snapshot equivalence model-checked for every log) and RaftLog.tla (storage contract: append / conflict deletion / purge / vote, with the faithful 'purge forgets last id' switch rejected); TLC-generated logs with cut and snapshot positions and every storage-call history replayed through the RaftStorage calls of the real MemStore (RocksStore in the thorough tier), plus openraft::testing::Suite on each store",
+CHECKS["C35"] = dict(engine="tlc+vhraft", level="model_checking", ref="4.20", technique="TLA+ specs RaftSM.tla (apply_command transcribed; batching independence and snapshot equivalence model-checked for every log) and RaftLog.tla (storage contract: append / conflict deletion / purge / vote, with the faithful 'purge forgets last id' switch rejected); TLC-generated logs with cut and snapshot positions and every storage-call history replayed through the RaftStorage calls of the real MemStore and RocksStore, plus openraft::testing::Suite on each store",
                      text="For every generated command log (all 16 command kinds): applying entry by entry, in two batches, and via snapshot-at-i + rest gives the same canonical state, equal to the specification's fold; for every history of storage calls the observations (last log id, purge point, vote, entries in order) equal the contract's reference after every call; the library's own storage suite passes.",
-                     note="Trusted: openraft's Suite as the statement of its contract. Bounded: logs of 8 (12) commands over 2 workers / 2 groups; storage histories of 5 (6) calls on 4 indices. RocksStore only when the persistent feature is built (thorough tier or VERIF_RAFT_PERSISTENT=1).")
+                     note="Trusted: openraft's Suite as the statement of its contract. Bounded: logs of 8 (12) commands over 2 workers / 2 groups; storage histories of 5 (6) calls on 4 indices.")
 CHECKS["C36"] = dict(engine="tlc+vhraft", level="model_checking", ref="4.20", technique="TLA+ spec RocksRecovery.tla: the persistent store at the grain of its RocksDB writes, a crash cutting any storage call after any number of writes, reopen; ideal (snapshot-first) and faithful (log replay only) recovery model-checked; TLC-generated histories replayed on the real RocksStore in temp dirs with crash points before every write (hook H9) and reopened with open_with_shared_state",
                      text="After every reopen the vote, the log entries, the purge point and the applied position equal what was persisted before the crash, and the recovered state machine must equal the commands 1..applied; a deviation is attributed to the recorded finding only when it equals the faithful model's prediction for that history.",
                      note="Trusted: RocksDB durability of completed puts (WAL). Bounded: 3 log positions, histories of 7 (8) calls, one store. Needs the persistent feature (RocksDB from source).")
